@@ -230,6 +230,19 @@ impl<F: Family> Program<F> {
 // ---------------------------------------------------------------------------------------------
 
 thread_local! {
+    /// "-alt" program sets: the interpreters call the alias entry points of the same operations
+    /// (`wait_timeout` for `wait`, `recv_timeout` / `iter().next()` for `recv`, `park_timeout`,
+    /// `call_once_force`), the programs and models are unchanged.  Set by `FamRunner::progs`.
+    static ALT_API: std::cell::Cell<bool> = const { std::cell::Cell::new(false) };
+}
+pub fn set_alt_api(on: bool) {
+    ALT_API.with(|a| a.set(on));
+}
+pub fn alt_api() -> bool {
+    ALT_API.with(|a| a.get())
+}
+
+thread_local! {
     /// Auxiliary events of the current execution (destructors, drop counters, ...), in real-time
     /// order, each with the decision stamp and the length of the main log at that moment.
     pub static AUX: RefCell<Vec<AuxEntry>> = const { RefCell::new(Vec::new()) };
